@@ -3,6 +3,7 @@ package c12
 import (
 	"math"
 	"reflect"
+	"unsafe"
 
 	"verifharness/internal/mon"
 )
@@ -24,8 +25,19 @@ type profile struct {
 	allowOutside bool
 	// allowPtrIface: pointers to interface-typed variables (*any, *Shape, **any)
 	allowPtrIface bool
-	pNilPtr       float64
-	pNilIface     float64
+	// soft classes (outside the stated universe: an error is fine, a different value
+	// or a panic is not), see NOTES.md "Universe"
+	allowNamedCont  bool // registered named slice / map types
+	allowIfaceKey   bool // maps whose key type is an interface (any, Shape)
+	allowArrays     bool // arrays, named arrays
+	allowUnregNamed bool // named slice / map types that were never registered
+	allowPtrKey     bool // maps whose key type is a pointer
+	allowHidden     bool // struct with unexported fields
+	// inside the universe, switched to keep the other cases small
+	allowSchema bool // eino's own message / document types
+	allowTagKey bool // map key struct with json tags
+	pNilPtr     float64
+	pNilIface   float64
 }
 
 type gen struct {
@@ -46,6 +58,14 @@ func newProfile(r *mon.Rand) profile {
 	p.allowUnsupported = r.Prob(0.12)
 	p.allowOutside = r.Prob(0.08)
 	p.allowPtrIface = r.Prob(0.08)
+	p.allowNamedCont = r.Prob(0.2)
+	p.allowIfaceKey = r.Prob(0.15)
+	p.allowArrays = r.Prob(0.08)
+	p.allowUnregNamed = r.Prob(0.06)
+	p.allowPtrKey = r.Prob(0.06)
+	p.allowHidden = r.Prob(0.05)
+	p.allowSchema = r.Prob(0.25)
+	p.allowTagKey = r.Prob(0.08)
 	return p
 }
 
@@ -63,7 +83,7 @@ func (g *gen) exhausted(depth int) bool { return depth >= g.p.maxDepth || g.left
 
 func (g *gen) pickStruct() reflect.Type {
 	skip := func(ti typeInfo) bool {
-		return (ti.knownOnly && !g.p.allowKnown) || (ti.ptrIface && !g.p.allowPtrIface)
+		return ti.gate != nil && !ti.gate(g.p)
 	}
 	total := 0
 	for _, ti := range structTypes {
@@ -98,16 +118,27 @@ func (g *gen) leafType() reflect.Type {
 }
 
 // elemType: element type of a generated slice / map value / pointer target.
-func (g *gen) elemType(depth int) reflect.Type {
+func (g *gen) elemType(depth int) reflect.Type { return g.elemTypeL(depth, 0) }
+
+func (g *gen) ptrWrap(t reflect.Type, maxD int) reflect.Type {
+	d := g.r.Range(1, maxD)
+	for i := 0; i < d; i++ {
+		t = reflect.PointerTo(t)
+	}
+	return t
+}
+
+// elemTypeL: level = how many containers have been nested directly so far.
+func (g *gen) elemTypeL(depth, level int) reflect.Type {
 	x := g.r.Intn(100)
 	switch {
-	case x < 40:
+	case x < 34:
 		return g.leafType()
-	case x < 60:
+	case x < 52:
 		return anyType
-	case x < 65:
+	case x < 57:
 		return shapeType
-	case x < 88:
+	case x < 76:
 		t := g.leafType()
 		d := 1
 		if g.r.Prob(0.3) {
@@ -117,21 +148,79 @@ func (g *gen) elemType(depth int) reflect.Type {
 			t = reflect.PointerTo(t)
 		}
 		return t
-	case x >= 95 && x < 99 && g.p.allowPtrIface:
-		return g.ptrIfaceType()
-	case x < 92 && g.p.allowUnsupported:
-		// container directly inside a container: refused by the encoder (loud)
-		g.feat("unsupported:container-in-container")
-		if g.r.Bool() {
-			return reflect.SliceOf(g.leafType())
+	case x < 88 && level < 3:
+		// container directly inside a container, or a pointer to one
+		g.feat("container-in-container")
+		c := g.containerType(depth, level+1)
+		if g.r.Prob(0.3) {
+			g.feat("ptr-to-container-elem")
+			c = g.ptrWrap(c, 2)
 		}
-		return reflect.MapOf(g.keyType(), g.leafType())
+		return c
+	case x < 91 && g.p.allowNamedCont:
+		return g.namedContType()
+	case x < 93 && g.p.allowArrays:
+		return g.arrayType(depth, level)
 	case x < 95 && g.p.allowOutside:
 		g.feat("outside:type")
 		return mon.PickOne(g.r, outsideTypes)
+	case x < 96 && g.p.allowUnregNamed:
+		return g.unregNamedType()
+	case x >= 96 && x < 99 && g.p.allowPtrIface:
+		return g.ptrIfaceType()
 	default:
 		return g.leafType()
 	}
+}
+
+func (g *gen) containerType(depth, level int) reflect.Type {
+	if g.r.Bool() {
+		return reflect.SliceOf(g.elemTypeL(depth, level))
+	}
+	return reflect.MapOf(g.keyType(), g.elemTypeL(depth, level))
+}
+
+func (g *gen) namedContType() reflect.Type {
+	g.feat("soft:named-container")
+	t := mon.PickOne(g.r, namedContTypes)
+	if g.r.Prob(0.3) {
+		t = g.ptrWrap(t, 2)
+	}
+	return t
+}
+
+func (g *gen) unregNamedType() reflect.Type {
+	g.feat("outside:unregistered-named-container")
+	t := mon.PickOne(g.r, unregNamed)
+	if g.r.Prob(0.3) {
+		t = g.ptrWrap(t, 2)
+	}
+	return t
+}
+
+func (g *gen) arrayType(depth, level int) reflect.Type {
+	g.feat("soft:array")
+	if g.r.Prob(0.3) {
+		t := mon.PickOne(g.r, arrayNamed)
+		if g.r.Prob(0.3) {
+			t = reflect.PointerTo(t)
+		}
+		return t
+	}
+	var e reflect.Type
+	switch g.r.Intn(4) {
+	case 0:
+		e = anyType
+	case 1:
+		e = reflect.PointerTo(g.leafType())
+	default:
+		e = g.leafType()
+	}
+	t := reflect.ArrayOf(g.r.Range(0, 3), e)
+	if g.r.Prob(0.25) {
+		t = reflect.PointerTo(t)
+	}
+	return t
 }
 
 func (g *gen) ptrIfaceType() reflect.Type {
@@ -146,7 +235,27 @@ func (g *gen) ptrIfaceType() reflect.Type {
 	return t
 }
 
-func (g *gen) keyType() reflect.Type { return mon.PickOne(g.r, keyTypes) }
+func (g *gen) keyType() reflect.Type {
+	x := g.r.Intn(100)
+	switch {
+	case x < 30 && g.p.allowIfaceKey:
+		g.feat("soft:interface-key")
+		if g.r.Prob(0.2) {
+			return shapeType
+		}
+		return anyType
+	case x >= 30 && x < 50 && g.p.allowPtrKey:
+		g.feat("soft:pointer-key")
+		return mon.PickOne(g.r, []reflect.Type{rt[*int](), rt[*string](), rt[*KeyA](), rt[*NInt](), rt[**int](), rt[*float64]()})
+	case x >= 50 && x < 65 && g.p.allowTagKey:
+		g.feat("tagged-key-struct")
+		return rt[TagKey]()
+	case x >= 65 && x < 72 && g.p.allowArrays:
+		g.feat("soft:array")
+		return mon.PickOne(g.r, []reflect.Type{rt[[2]int](), rt[[1]string](), rt[Arr3]()})
+	}
+	return mon.PickOne(g.r, keyTypes)
+}
 
 // dynType: the dynamic type of a top-level value or of a value in an `any` slot.
 func (g *gen) dynType(depth int) reflect.Type {
@@ -156,6 +265,18 @@ func (g *gen) dynType(depth int) reflect.Type {
 	}
 	if depth == 0 && x < 20 && g.r.Prob(0.6) {
 		x = 20 + g.r.Intn(80) // fewer bare scalars at the top level
+	}
+	// the switched classes: named containers, arrays, unregistered named
+	// containers and eino's message types at the top / in an interface slot
+	switch {
+	case g.p.allowNamedCont && g.r.Prob(0.25):
+		return g.namedContType()
+	case g.p.allowArrays && g.r.Prob(0.25):
+		return g.arrayType(depth, 0)
+	case g.p.allowUnregNamed && g.r.Prob(0.3):
+		return g.unregNamedType()
+	case g.p.allowSchema && g.r.Prob(0.12):
+		return mon.PickOne(g.r, msgTypes)
 	}
 	switch {
 	case x < 14:
@@ -176,21 +297,9 @@ func (g *gen) dynType(depth int) reflect.Type {
 	case x < 90:
 		return reflect.MapOf(g.keyType(), g.elemType(depth))
 	case x < 95:
-		if g.p.allowKnown {
-			// pointer to container (D-C12 when non-nil)
-			var c reflect.Type
-			if g.r.Bool() {
-				c = reflect.SliceOf(g.elemType(depth))
-			} else {
-				c = reflect.MapOf(g.keyType(), g.elemType(depth))
-			}
-			d := g.r.Range(1, 2)
-			for i := 0; i < d; i++ {
-				c = reflect.PointerTo(c)
-			}
-			return c
-		}
-		return reflect.SliceOf(anyType)
+		// pointer to a container
+		g.feat("ptr-to-container-top")
+		return g.ptrWrap(g.containerType(depth, 0), 2)
 	case x < 97:
 		if g.p.allowOutside {
 			g.feat("outside:type")
@@ -223,7 +332,13 @@ var strAtoms = []string{"a", "b", "Z", "0", " ", "\"", "\\", "/", "\n", "\t", "\
 	"\u00e9", "\u00df", "\u4e2d", "\u6587", "\u2028", "\u2029", "\ufeff", "\ufffd", "\U0001f600", "\U0001d11e", "\U0010ffff", "{", "}", "[", "]", ":", ",",
 	"null", "true", "\\u0041", "\\n", "%", "\u200b", "\u0080", "\u07ff", "\u0800", "\uffff", "\U00010000"}
 
+var badUTF8 = []string{"\xff", "a\xffb", "\xc3", "\xed\xa0\x80", "\xf8\x88\x80\x80\x80", "ok\x80", "\xc0\xaf", "\xe4\xb8"}
+
 func (g *gen) str() string {
+	if g.p.allowOutside && g.r.Prob(0.1) {
+		g.feat("outside:invalid-utf8")
+		return mon.PickOne(g.r, badUTF8)
+	}
 	switch g.r.Intn(10) {
 	case 0:
 		return ""
@@ -419,10 +534,19 @@ func (g *gen) value(t reflect.Type, depth int) reflect.Value {
 		g.slice(v, t, depth)
 	case reflect.Map:
 		g.mapv(v, t, depth)
+	case reflect.Array:
+		for i := 0; i < t.Len(); i++ {
+			v.Index(i).Set(g.value(t.Elem(), depth+1))
+		}
 	case reflect.Struct:
 		for i := 0; i < t.NumField(); i++ {
 			f := t.Field(i)
 			if f.PkgPath != "" {
+				// unexported field (outside the universe): set through its address
+				g.feat("outside:unexported-field")
+				if g.r.Prob(0.7) {
+					reflect.NewAt(f.Type, unsafe.Pointer(v.Field(i).UnsafeAddr())).Elem().Set(g.value(f.Type, depth+1))
+				}
 				continue
 			}
 			v.Field(i).Set(g.value(f.Type, depth+1))
@@ -438,17 +562,26 @@ func (g *gen) pointer(v reflect.Value, t reflect.Type, depth int) {
 	// nilAt: level (1-based) of the nil pointer, 0 = the whole chain is non-nil
 	nilAt := 0
 	switch {
+	case base.Kind() == reflect.Array || (isContainer(base) && base.Name() != "" && !registeredSet[base]):
+		// the encoder has no name for the pointee of such a nil pointer (loud):
+		// mostly non-nil so that the rest of the value is not masked
+		if g.r.Prob(0.12) {
+			nilAt = g.r.Range(1, d)
+		}
 	case isContainer(base):
-		// non-nil: D-C12 (pointer count lost); nil: refused by the encoder
-		if g.p.allowKnown && g.r.Prob(0.6) {
-			g.feat("known:ptr-to-container")
-			if d >= 2 && g.r.Prob(0.2) {
-				nilAt = g.r.Range(1, d)
-				g.feat("unsupported:nil-ptr-to-container")
+		g.feat("ptr-to-container")
+		if d == 1 {
+			if g.r.Prob(g.p.pNilPtr) {
+				nilAt = 1
+				g.feat("nil-ptr-to-container")
 			}
-		} else {
+		} else if g.r.Prob(0.3) {
 			nilAt = 1
-			g.feat("unsupported:nil-ptr-to-container")
+			g.feat("nil-ptr-to-container")
+		} else if g.p.allowKnown && g.r.Prob(0.4) {
+			nilAt = g.r.Range(1, d)
+			g.feat("known:nil-in-deep-chain")
+			g.feat("nil-ptr-to-container")
 		}
 	case base.Kind() == reflect.Interface:
 		g.feat("known:ptr-to-interface")
@@ -561,6 +694,12 @@ func (g *gen) mapv(v reflect.Value, t reflect.Type, depth int) {
 
 // key: map keys never contain NaN (not comparable) and stay small.
 func (g *gen) key(t reflect.Type) reflect.Value {
+	switch t.Kind() {
+	case reflect.Interface:
+		return g.ifaceKey(t)
+	case reflect.Ptr:
+		return g.ptrKey(t)
+	}
 	save := g.p.allowOutside
 	g.p.allowOutside = false
 	k := g.value(t, g.p.maxDepth) // leaves only
@@ -594,4 +733,77 @@ func (g *gen) top() any {
 	}
 	t := g.dynType(0)
 	return g.value(t, 0).Interface()
+}
+
+// small: a value from a small pool (so that keys of different dynamic types
+// share their JSON text: int(1), int64(1), float64(1), NInt(1), "1", ...).
+func (g *gen) small(t reflect.Type) reflect.Value {
+	v := reflect.New(t).Elem()
+	switch t.Kind() {
+	case reflect.Bool:
+		v.SetBool(g.r.Bool())
+	case reflect.Int, reflect.Int8, reflect.Int16, reflect.Int32, reflect.Int64:
+		v.SetInt(int64(g.r.Intn(3)))
+	case reflect.Uint, reflect.Uint8, reflect.Uint16, reflect.Uint32, reflect.Uint64, reflect.Uintptr:
+		v.SetUint(uint64(g.r.Intn(3)))
+	case reflect.Float32, reflect.Float64:
+		v.SetFloat([]float64{0, 1, 2, 0.5}[g.r.Intn(4)])
+	case reflect.String:
+		v.SetString(mon.PickOne(g.r, []string{"", "0", "1", "1.0", "a", "true", "null", "2"}))
+	default:
+		save := g.p.allowOutside
+		g.p.allowOutside = false
+		v = g.value(t, g.p.maxDepth)
+		g.p.allowOutside = save
+		g.left++
+	}
+	return v
+}
+
+// ifaceKey: a key of a map whose key type is an interface: comparable dynamic
+// types only (a non-comparable one would make the harness itself panic).
+func (g *gen) ifaceKey(t reflect.Type) reflect.Value {
+	v := reflect.New(t).Elem()
+	if g.r.Prob(0.03) {
+		g.feat("soft:nil-interface-key")
+		return v
+	}
+	var dt reflect.Type
+	switch {
+	case t == shapeType:
+		dt = mon.PickOne(g.r, []reflect.Type{rt[Circle](), rt[UnitSq]()})
+	case g.p.allowPtrKey && g.r.Prob(0.15):
+		v.Set(g.ptrKey(mon.PickOne(g.r, []reflect.Type{rt[*int](), rt[*string](), rt[*KeyA]()})))
+		return v
+	default:
+		dt = mon.PickOne(g.r, ifaceKeyDyn)
+	}
+	if g.r.Prob(0.6) {
+		v.Set(g.small(dt))
+	} else {
+		save := g.p.allowOutside
+		g.p.allowOutside = false
+		v.Set(g.value(dt, g.p.maxDepth))
+		g.p.allowOutside = save
+		g.left++
+	}
+	return v
+}
+
+// ptrKey: a fresh pointer (chain) to a small value; two keys of one map often
+// point to equal values (their serialized forms coincide).
+func (g *gen) ptrKey(t reflect.Type) reflect.Value {
+	d, base := ptrDepth(t)
+	v := reflect.New(t).Elem()
+	if g.r.Prob(0.08) {
+		return v // nil key
+	}
+	inner := g.small(base)
+	for i := 0; i < d; i++ {
+		p := reflect.New(inner.Type())
+		p.Elem().Set(inner)
+		inner = p
+	}
+	v.Set(inner)
+	return v
 }
